@@ -28,6 +28,7 @@ DESIGN_QUICK = [
 ]
 DESIGN_THOROUGH = [
     ("core", BASE, [('JKs = {"val"}', 'JKs = {"none", "val"}')], "as quick, two justification kinds"),
+    ("core-arr4", BASE, [("MaxArr = 3", "MaxArr = 4")], "as quick, 4 arrivals"),
     ("core-cap2", BASE, [("Cap = 1", "Cap = 2"), ("MaxArr = 3", "MaxArr = 4"), ("Insts = {10, 11}", "Insts = {10}"), ("PruneAt = {10, 11}", "PruneAt = {11}")],
      "1 instance, cap 2, 4 arrivals"),
     ("core-3chains", BASE, [("ChainsC <- ChainsTwo", "ChainsC <- ChainsThree"), ("Senders = {1, 2}", "Senders = {1}")], "3 chains, 1 sender"),
@@ -205,7 +206,7 @@ def manager_stage(ck):
         ck.cov["configs"] += sub.cov["configs"]
         for k in ("manager_clause_antecedents", "manager_event_counts"):
             ck.cov.setdefault(k, {}).update(sub.cov.get(k, {}))
-        ck.violations += sub.violations
+        ck.violations += [v for v in sub.violations if v["signature"] not in [x["signature"] for x in ck.violations]]
         ck.known_hit += sub.known_hit
         nhist += sum(1 for e in ev if e["ev"] == "Reset")
         if cov:
